@@ -915,6 +915,36 @@ func main() {
 	add(1, -1, false, []action{{op: "ReadFrom", src: srcSpec{data: "hello", fail: true}}, {op: "WriteHeader", code: 500}}, "witness", true)
 	add(1, -1, false, []action{{op: "ReadFrom", src: srcSpec{}}, {op: "WriteHeader", code: 500}}, "witness", true)
 
+	// 6. status-code sweeps on fresh writers, every run: Redirect over EVERY code 0..1000 plus negative,
+	//    large and wrapped values (the model/spec accept iff 300 <= code <= 308; error, Status, Location,
+	//    Written and Size are all part of the observation), WriteHeader followed by a Write and
+	//    String/Blob/Stream over every code 100..599 (informational vs final, 101)
+	sweepCodes := []int{}
+	for c := 0; c <= 1000; c++ {
+		sweepCodes = append(sweepCodes, c)
+	}
+	sweepCodes = append(sweepCodes, -1, -300, -308, 1001, 1300, 1308, 3000, 30000, 65536+300, 65536+308, 1<<31+300, 1<<32+301, 1<<40)
+	for i, c := range sweepCodes {
+		u := "/new"
+		if i%3 == 1 {
+			u = "https://example.com/x?y=1"
+		}
+		add(i%len(kinds), -1, false, []action{{op: "Redirect", code: c, data: u}}, "sweep-redirect", i%2 == 0)
+	}
+	// accepted and neighbouring codes once more after a helper that already set a Content-Type (no HTML body then)
+	for c := 295; c <= 312; c++ {
+		add(c%len(kinds), -1, false, []action{{op: "Blob", code: 200, ct: "text/c14", data: "b"}, {op: "Redirect", code: c, data: "/new"}}, "sweep-redirect", false)
+		add(c%len(kinds), 2, false, []action{{op: "Redirect", code: c, data: "/new"}, {op: "Redirect", code: c + 1, data: "/x"}}, "sweep-redirect", true)
+	}
+	for c := 100; c <= 599; c++ {
+		k := c % len(kinds)
+		add(k, -1, false, []action{{op: "WriteHeader", code: c}, {op: "Write", data: "x"}, {op: "WriteHeader", code: c + 1}}, "sweep-writeheader", c%2 == 0)
+		add((k+1)%len(kinds), -1, false, []action{{op: "String", code: c, isFmt: true, format: "s%d", fargs: []any{c}}}, "sweep-helper-code", c%2 == 1)
+		add((k+2)%len(kinds), -1, false, []action{{op: "Blob", code: c, ct: "application/x-c14", data: "b"}}, "sweep-helper-code", c%2 == 0)
+		add((k+3)%len(kinds), -1, false, []action{{op: "Stream", code: c, ct: "text/c14", src: srcSpec{data: "st", chunk: 1}}}, "sweep-helper-code", c%2 == 1)
+	}
+	scopes = append(scopes, fmt.Sprintf("Redirect on a fresh writer for every code 0..1000 and %d negative/large/wrapped codes; WriteHeader;Write;WriteHeader, String, Blob, Stream for every code 100..599", len(sweepCodes)-1001))
+
 	// observations that occur often get a name in the header (keeps the case files small:
 	// coqc spends its time elaborating the literals, not evaluating the model)
 	freq := map[string]int{}
